@@ -227,11 +227,12 @@ def check(ctx):
     rets14 = [r for r in ast.walk(ip.node) if isinstance(r, ast.Return) and r.value is not None]
     from ..pathcond import parents_of as _po14, path_condition as _pc14
     pm14 = _po14(ip.node)
-    ok14 = len(rets14) == 1 and norm(rets14[0].value) == "next(iter(prop_schema['patternProperties']))"
+    from ..util import expand_locals
+    ok14 = len(rets14) == 1 and norm(expand_locals(rets14[0].value, ip.node, keep=('prop_schema',))) in ("next(iter(prop_schema['patternProperties']))", "next(iter(prop_schema.get('patternProperties', {})))")
     conj14 = set()
     if len(rets14) == 1:
         c14 = _pc14(ip.node, rets14[0], pm14)
-        conj14 = {norm(x) for x in flatten_boolop(c14, ast.And)} if c14 is not None else set()
+        conj14 = {norm(expand_locals(x, ip.node, keep=('prop_schema',))) for x in flatten_boolop(c14, ast.And)} if c14 is not None else set()
     want14 = {"len(prop_schema.get('patternProperties', {})) == 1", "'additionalProperties' not in prop_schema"}
     ctx.check(ok14 and want14 <= conj14, "C06.R14", f"{ip.qualname}:single-pattern", None,
               f"the inferred pattern is returned under {sorted(conj14)}: it must be the only patternProperties key of a schema without additionalProperties (otherwise the pattern field would claim keys its type does not constrain, or one pattern among several)",
